@@ -108,7 +108,7 @@ pub fn observe(p: &hk::Picture) -> Fields {
         options: p.options.bits(),
         has_plusptype: p.has_plusptype,
         has_opptype: p.has_opptype,
-        ptype: format!("{:?}", p.picture_type),
+        ptype: picture_type_name(&p.picture_type),
         mv_range: p.motion_vector_range.as_ref().map(|m| match m {
             hk::MotionVectorRange::Extended => "Extended",
             hk::MotionVectorRange::Unlimited => "Unlimited",
@@ -1132,7 +1132,7 @@ fn state_case(g: &mut Gen, cfg: &PicCfg) -> Verdict {
                 ));
             }
             if mode == Mode::Sorenson {
-                let deb = lp.header_debug.contains("USE_DEBLOCKER");
+                let deb = lp.options_bits & O_DEBLOCKER != 0;
                 if deb != p.hdr.deblock {
                     return Verdict::fail(format!("decoded picture reports deblocking flag {}, header carried {}", deb, p.hdr.deblock));
                 }
